@@ -98,7 +98,9 @@ extern "C" int close(int fd)
 }
 
 static FILE* OUT = stdout;
-static std::recursive_mutex g_out_mtx;      // callbacks may come from the receive and the decode thread
+static std::recursive_mutex g_out_mtx;
+// prints of the scenario thread while worker threads may be inside (multi-part) callback prints
+#define LOCKED_PRINT(...) do { std::lock_guard<std::recursive_mutex> lg_(g_out_mtx); fprintf(OUT, __VA_ARGS__); } while (0)      // callbacks may come from the receive and the decode thread
 static std::atomic<int> g_pcap_exit(0), g_pcap_repeat(0);
 
 static std::vector<std::string> split_ws(const std::string& s)
@@ -433,16 +435,16 @@ static int run_scenario(std::vector<std::string>& lines)
     {
       // lifecycle calls on a driver with real threads (C11); every call is followed by the flags and thread states it left behind
       auto it = insts.find((int)I(1));
-      if (it == insts.end()) { fprintf(OUT, "nodrv %d\n", (int)I(1)); continue; }
+      if (it == insts.end()) { LOCKED_PRINT("nodrv %d\n", (int)I(1)); continue; }
       Inst* in = it->second.get();
       in->lmode = true;
       if (c == "LI" || c == "LS" || c == "LC") in->stopped = false;      // these calls may run callbacks themselves
       g_fake_clock = false; g_fake_wall = false; g_fd_track = true;
       auto lstate = [&]() {
-        if (!in->drv) { fprintf(OUT, "lstate %d gone\n", in->idx); return; }
+        if (!in->drv) { LOCKED_PRINT("lstate %d gone\n", in->idx); return; }
         auto impl = in->drv->driver_ptr_;
         bool rj = impl->input_ptr_ ? impl->input_ptr_->recv_thread_.joinable() : false;
-        fprintf(OUT, "lstate %d %d %d %d %d bad=%d\n", in->idx, (int)impl->init_flag_, (int)impl->start_flag_, (int)impl->handle_thread_.joinable(), (int)rj, (int)g_badclose);
+        LOCKED_PRINT("lstate %d %d %d %d %d bad=%d\n", in->idx, (int)impl->init_flag_, (int)impl->start_flag_, (int)impl->handle_thread_.joinable(), (int)rj, (int)g_badclose);
       };
       if (c == "LC")
       {
@@ -479,12 +481,12 @@ static int run_scenario(std::vector<std::string>& lines)
         in->drv->regExceptionCallback([in](const Error& e) { in->err(e); });
         in->drv->regPacketCallback([in](const Packet& pk) { in->pkt(pk); });
         in->stopped = false; in->npkt = 0; g_pcap_exit = 0; g_pcap_repeat = 0;
-        fprintf(OUT, "lcreate %d\n", in->idx);
+        LOCKED_PRINT("lcreate %d\n", in->idx);
       }
-      else if (!in->drv) { fprintf(OUT, "nodrv %d\n", in->idx); continue; }
-      else if (c == "LI") { bool ok = in->drv->init(in->lparam); fprintf(OUT, "linit %d %d\n", in->idx, (int)ok); }
-      else if (c == "LS") { bool ok = in->drv->start(); fprintf(OUT, "lstart %d %d\n", in->idx, (int)ok); }
-      else if (c == "LX") { in->drv->stop(); in->stopped = true; fprintf(OUT, "lstop %d\n", in->idx); }
+      else if (!in->drv) { LOCKED_PRINT("nodrv %d\n", in->idx); continue; }
+      else if (c == "LI") { bool ok = in->drv->init(in->lparam); LOCKED_PRINT("linit %d %d\n", in->idx, (int)ok); }
+      else if (c == "LS") { bool ok = in->drv->start(); LOCKED_PRINT("lstart %d %d\n", in->idx, (int)ok); }
+      else if (c == "LX") { in->drv->stop(); in->stopped = true; LOCKED_PRINT("lstop %d\n", in->idx); }
       else if (c == "LP") { Packet pk; if (t.size() > 2) pk.buf_ = unhex(t[2]); in->drv->decodePacket(pk); }
       else if (c == "LW")
       {
@@ -502,7 +504,7 @@ static int run_scenario(std::vector<std::string>& lines)
             std::this_thread::sleep_for(std::chrono::milliseconds(2));
           }
         }
-        fprintf(OUT, "lproc %d %ld\n", in->idx, (long)in->npkt);
+        LOCKED_PRINT("lproc %d %ld\n", in->idx, (long)in->npkt);
       }
       else if (c == "LE")
       {
@@ -513,10 +515,10 @@ static int run_scenario(std::vector<std::string>& lines)
           std::this_thread::sleep_for(std::chrono::milliseconds(2));
         }
         std::this_thread::sleep_for(std::chrono::milliseconds(20));
-        fprintf(OUT, "leof %d %d\n", in->idx, (int)(in->repeat ? g_pcap_repeat >= 1 : g_pcap_exit >= 1));
+        LOCKED_PRINT("leof %d %d\n", in->idx, (int)(in->repeat ? g_pcap_repeat >= 1 : g_pcap_exit >= 1));
         g_pcap_exit = 0; g_pcap_repeat = 0;
       }
-      else if (c == "LD") { in->drv.reset(); in->stopped = true; fprintf(OUT, "ldestroy %d\n", in->idx); }
+      else if (c == "LD") { in->drv.reset(); in->stopped = true; LOCKED_PRINT("ldestroy %d\n", in->idx); }
       if (c != "LP") lstate();
       g_fd_track = false;
     }
@@ -692,7 +694,7 @@ static int run_scenario(std::vector<std::string>& lines)
       in->drv->start();
       auto impl = in->drv->driver_ptr_;
       auto drained = [&]() {
-        for (int k = 0; k < 3; k++)
+        for (int k = 0; k < 8; k++)
         {
           { std::lock_guard<std::mutex> lg(impl->pkt_queue_.mtx_); if (!impl->pkt_queue_.queue_.empty()) return false; }
           std::this_thread::sleep_for(std::chrono::milliseconds(3));
@@ -713,7 +715,8 @@ static int run_scenario(std::vector<std::string>& lines)
           if (in->repeat ? (g_pcap_repeat >= 2) : (g_pcap_exit >= 1)) break;
           std::this_thread::sleep_for(std::chrono::milliseconds(2));
         }
-        if (!in->repeat) for (int k = 0; k < 3000 && !drained(); k++) std::this_thread::sleep_for(std::chrono::milliseconds(2));
+        // the reading thread is done (or held at the second replay): let the decoding thread finish what is queued
+        for (int k = 0; k < 3000 && !drained(); k++) std::this_thread::sleep_for(std::chrono::milliseconds(2));
       }
       in->drv->stop();
       if (!path.empty()) unlink(path.c_str());
